@@ -284,6 +284,20 @@ static int planNext(const char** s, char* tok, size_t cap) { const char* n = nex
 static tape_t* tapeOfBuf(const octet* b, size_t n) { tape_t* s = (tape_t*)xalloc(sizeof(tape_t)); s->t = b; s->len = n; return s; }
 static void seedOf(const vx_cmd* c) { vxSeed(vxEnvSeed() * 1000003ull + (uint64_t)vxInt(c, "salt", 1)); }
 
+/* the branch each draw of the plan has to take according to the standard's loop, then "used" for the final draw */
+static void putWant(const char* plan)
+{
+	char tok[32]; const char* s = plan; int first = 1;
+	jSep(); fprintf(vx_out, "\"want\":[");
+	while (s && planNext(&s, tok, sizeof tok))
+	{
+		const char* w = strcmp(tok, "e0") == 0 || strcmp(tok, "etop") == 0 ? "e=0" : strcmp(tok, "r0") == 0 ? "r=0" : strcmp(tok, "s0") == 0 ? "s=0" :
+			strcmp(tok, "k0") == 0 ? "k=0" : strcmp(tok, "kq") == 0 || strcmp(tok, "kmax") == 0 ? "k>=q" : 0;
+		if (w) fprintf(vx_out, "%s\"%s\"", first ? "" : ",", w), first = 0;
+	}
+	fprintf(vx_out, "%s\"used\"]", first ? "" : ",");
+}
+
 static void doDstuRetry(const vx_cmd* c)
 {
 	dstu_params* P = (dstu_params*)xalloc(sizeof(*P)); const char* name = vxArg(c, "name"); const char* plan = vxArg(c, "plan"); err_t e;
@@ -373,7 +387,7 @@ static void doDstuRetry(const vx_cmd* c)
 		ntape += ono;
 	}
 	memcpy(tape + ntape, ec, ono); ntape += ono;
-	jInt("built", (long long)built); jOct("dtape", dt ? dt : tape, dt ? dlen : 0); jOct("H", hash, hl); jOct("tape", tape, ntape);
+	jInt("built", (long long)built); putWant(plan); jOct("dtape", dt ? dt : tape, dt ? dlen : 0); jOct("H", hash, hl); jOct("tape", tape, ntape);
 	t = tapeOfBuf(dt, dt ? dlen : 0);
 	e = dstuKeypairGen(priv, pub, P, tapeStep, t); free(t);
 	jInt("rcGen", e); jOct("priv", priv, ono); jOct("pub", pub, 2 * no); jInt("rcPubVal", dstuPointVal(P, pub));
@@ -447,7 +461,7 @@ static void doG12sRetry(const vx_cmd* c)
 		else if (strcmp(tok, "s0") == 0) { memcpy(ch, kb, mo); ntape += mo; }
 	}
 	memcpy(tape + ntape, kc, mo); ntape += mo;
-	jInt("built", (long long)built); jOct("dtape", dt ? dt : tape, dt ? dlen : 0); jOct("H", hash, mo); jOct("tape", tape, ntape);
+	jInt("built", (long long)built); putWant(plan); jOct("dtape", dt ? dt : tape, dt ? dlen : 0); jOct("H", hash, mo); jOct("tape", tape, ntape);
 	t = tapeOfBuf(dt, dt ? dlen : 0);
 	e = g12sKeypairGen(priv, pub, P, tapeStep, t); free(t);
 	jInt("rcGen", e); jOct("priv", priv, mo); jOct("pub", pub, 2 * no);
@@ -479,7 +493,7 @@ static void doBign96Retry(const vx_cmd* c)
 	for (s = plan; s && planNext(&s, tok, sizeof tok) && ntape + 48 <= 16 * 24;)
 		if (rangeChunk(tape + ntape, tok, P->q, 24)) ntape += 24;
 	memcpy(tape + ntape, kc, 24); ntape += 24;
-	jInt("built", 1); jOct("dtape", dt ? dt : tape, dt ? dlen : 0); jOct("H", hash, 24); jOct("tape", tape, ntape);
+	jInt("built", 1); putWant(plan); jOct("dtape", dt ? dt : tape, dt ? dlen : 0); jOct("H", hash, 24); jOct("tape", tape, ntape);
 	t = tapeOfBuf(dt, dt ? dlen : 0);
 	e = bign96KeypairGen(priv, pub, P, tapeStep, t); free(t);
 	jInt("rcGen", e); jOct("priv", priv, 24); jOct("pub", pub, 48);
